@@ -9,7 +9,7 @@
 //!       INIT = new | bytes NT tag* LEN NI item* BRK | json N elem* | scr M (K keyhash*)*
 //!       LEN  = i | d<n>w<k> (definite count n written with a k-byte head, k = 0 immediate)   BRK = 0|1 (a 0xff after the items)
 //!       item = e<wire>,<canonical> | b<wire> (element decoder rejects it) | n (CBOR null)
-//!       op   = a<elem> (add, result observed) | c<elem> (contains; only where it is public)
+//!       op   = a<elem> | a<wire>,<elem> (add an element decoded from <wire>, another spelling of the same value; result observed) | c… (contains; only where it is public)
 //!     -> ok b=<bits> items=<csv> bytes=<to_bytes> json=<to_bytes after from_json(to_json)> | err | panic
 //!   ws NOPS op*     op = vk N e* | ns N e* | bs N e* | ps N <lang>:<bytes>* | pd <a|d|i> N datum*   datum = k<int>,<orig|~>
 //!     -> ok bytes=<to_bytes> f=<key:csv;…>   (the element encodings found under each key when the output is decoded again)
@@ -52,12 +52,60 @@ fn bstr(b: &[u8]) -> Vec<u8> { let mut v = head(2, b.len() as u64); v.extend(b);
 fn csv(v: &[String]) -> String { if v.is_empty() { "-".into() } else { v.join(",") } }
 fn hx(b: &[u8]) -> String { hex_or_dash(b) }
 
-/// A non-canonical encoding of the same element: the first head (array or byte string) written one width wider.
-fn widen(canon: &[u8]) -> Vec<u8> {
-    let b0 = canon[0]; let major = b0 >> 5; let ai = b0 & 31;
-    if (major == 4 || major == 2) && ai < 24 { let mut v = vec![(major << 5) | 24, ai]; v.extend(&canon[1..]); v }
-    else if (major == 4 || major == 2) && ai == 24 { let mut v = vec![(major << 5) | 25, 0, canon[1]]; v.extend(&canon[2..]); v }
-    else { canon.to_vec() }
+/// Walks one CBOR data item starting at `p`; records every head as (position, major, additional info, head length, end of the item).
+fn walk(b: &[u8], p: usize, out: &mut Vec<(usize, u8, u8, usize, usize)>) -> Option<usize> {
+    let b0 = *b.get(p)?; let major = b0 >> 5; let ai = b0 & 31;
+    let (arg, hl): (u64, usize) = match ai {
+        0..=23 => (ai as u64, 1),
+        24 => (*b.get(p + 1)? as u64, 2),
+        25 => (u16::from_be_bytes([*b.get(p + 1)?, *b.get(p + 2)?]) as u64, 3),
+        26 => (u32::from_be_bytes([*b.get(p + 1)?, *b.get(p + 2)?, *b.get(p + 3)?, *b.get(p + 4)?]) as u64, 5),
+        27 => { let mut a = [0u8; 8]; for i in 0..8 { a[i] = *b.get(p + 1 + i)?; } (u64::from_be_bytes(a), 9) }
+        31 => (0, 1),
+        _ => return None,
+    };
+    let idx = out.len(); out.push((p, major, ai, hl, 0));
+    let end = match major {
+        0 | 1 | 7 => p + hl,
+        2 | 3 => if ai == 31 { return None } else { p + hl + arg as usize },
+        4 | 5 => {
+            let mut q = p + hl;
+            if ai == 31 { while *b.get(q)? != 0xff { q = walk(b, q, out)?; } q + 1 }
+            else { for _ in 0..(if major == 4 { arg } else { 2 * arg }) { q = walk(b, q, out)?; } q }
+        }
+        _ => walk(b, p + hl, out)?,
+    };
+    if end > b.len() { return None; }
+    out[idx].4 = end;
+    Some(end)
+}
+/// Another spelling of the same CBOR value: somewhere inside the item (nested sets and arrays included) ONE of
+///  - a set tag 258 removed (a tagged set written as a plain array),
+///  - a definite-length array or map written with indefinite length,
+///  - an integer / length head written one width wider.
+/// Whether the library reads it as the same element is decided by the caller with the library's own decoder.
+fn variant(r: &mut Rng, canon: &[u8]) -> Vec<u8> {
+    let mut hs = Vec::new();
+    if walk(canon, 0, &mut hs) != Some(canon.len()) { return canon.to_vec(); }
+    // nested set tags are rare among the heads: take one of them half of the time when there is one
+    let tags: Vec<usize> = hs.iter().filter(|h| h.1 == 6 && canon[h.0..h.0 + h.3] == [0xd9, 0x01, 0x02]).map(|h| h.0).collect();
+    if !tags.is_empty() && r.chance(1, 2) { let p = *r.pick(&tags); let mut v = canon[..p].to_vec(); v.extend(&canon[p + 3..]); return v; }
+    for _ in 0..8 {
+        let (p, major, ai, hl, end) = *r.pick(&hs);
+        match r.below(3) {
+            0 => if major == 6 && canon[p..p + hl] == [0xd9, 0x01, 0x02] { let mut v = canon[..p].to_vec(); v.extend(&canon[p + hl..]); return v; },
+            1 => if (major == 4 || major == 5) && ai != 31 {
+                    let mut v = canon[..p].to_vec(); v.push((major << 5) | 31); v.extend(&canon[p + hl..end]); v.push(0xff); v.extend(&canon[end..]); return v; },
+            _ => if major <= 5 && ai < 24 { let mut v = canon[..p].to_vec(); v.push((major << 5) | 24); v.push(ai); v.extend(&canon[p + 1..]); return v; }
+                 else if major <= 5 && ai == 24 { let mut v = canon[..p].to_vec(); v.push((major << 5) | 25); v.push(0); v.extend(&canon[p + 1..]); return v; },
+        }
+    }
+    canon.to_vec()
+}
+/// a variant that the library's decoder reads as the SAME element (else the canonical bytes themselves)
+fn same_elem_variant(r: &mut Rng, kind: u64, canon: &[u8]) -> Vec<u8> {
+    for _ in 0..4 { let w = variant(r, canon); if canon_of(kind, &w).as_deref() == Some(canon) { return w; } }
+    canon.to_vec()
 }
 
 // ------------------------------------------------------------------ elements of the seven set types
@@ -71,7 +119,20 @@ fn element(kind: u64, id: u64) -> Vec<u8> {
         3 => {
             let c = if base % 2 == 0 { Credential::from_keyhash(&keyhash(base, 4)) } else { Credential::from_scripthash(&scripthash(base, 4)) };
             let pool = keyhash(base, 5);
-            (match (base + var) % 7 {
+            (match (base + var) % 9 {
+                7 => {
+                    // nested set: pool owners (1..3 of them), plus relays and a reward account
+                    let mut owners = Ed25519KeyHashes::new();
+                    for k in 0..(1 + base % 3) { owners.add(&keyhash(base * 7 + k, 13)); }
+                    let mut relays = Relays::new();
+                    relays.add(&Relay::new_single_host_name(&SingleHostName::new(Some(3001), &DNSRecordAorAAAA::new(format!("r{}.example", var)).unwrap())));
+                    let params = PoolParams::new(&pool, &VRFKeyHash::from_bytes(fill(base, 14, 32)).unwrap(),
+                        &BigNum::from(1_000_000_000u64 + var), &BigNum::from(340_000_000u64),
+                        &UnitInterval::new(&BigNum::from(1u64), &BigNum::from(20u64)),
+                        &RewardAddress::new(0, &c), &owners, &relays, None);
+                    Certificate::new_pool_registration(&PoolRegistration::new(&params))
+                }
+                8 => Certificate::new_committee_hot_auth(&CommitteeHotAuth::new(&c, &Credential::from_keyhash(&keyhash(base + var, 15)))),
                 0 => Certificate::new_stake_registration(&StakeRegistration::new(&c)),
                 1 => Certificate::new_stake_deregistration(&StakeDeregistration::new(&c)),
                 2 => Certificate::new_stake_delegation(&StakeDelegation::new(&c, &pool)),
@@ -82,7 +143,15 @@ fn element(kind: u64, id: u64) -> Vec<u8> {
             }).to_bytes()
         }
         4 => {
-            let action = match base % 3 {
+            let action = match base % 4 {
+                3 => {
+                    // nested set: committee members to remove, plus a member map
+                    let mut rm = Credentials::new();
+                    for k in 0..(1 + base % 2) { rm.add(&Credential::from_keyhash(&keyhash(base * 5 + k, 16))); }
+                    let mut committee = Committee::new(&UnitInterval::new(&BigNum::from(2u64), &BigNum::from(3u64)));
+                    committee.add_member(&Credential::from_scripthash(&scripthash(base, 17)), 500 + var as u32);
+                    GovernanceAction::new_new_committee_action(&UpdateCommitteeAction::new(&committee, &rm))
+                }
                 0 => GovernanceAction::new_info_action(&InfoAction::new()),
                 1 => GovernanceAction::new_no_confidence_action(&NoConfidenceAction::new()),
                 _ => GovernanceAction::new_hard_fork_initiation_action(&HardForkInitiationAction::new(&ProtocolVersion::new(10 + base as u32, 0))),
@@ -206,7 +275,7 @@ fn finish_set<S: SetOps>(start: Option<S>, p: &mut P) -> String {
     let mut s = match start { Some(s) => s, None => return "err".into() };
     let mut bools = String::new();
     for _ in 0..p.count() {
-        let o = p.next(); let e = unhex_or_dash(&o[1..]);
+        let o = p.next(); let e = unhex_or_dash(o[1..].split(',').next().unwrap());      // a<wire>[,<canonical>]
         match &o[..1] {
             "a" => bools.push(if s.add_b(&e) { '1' } else { '0' }),
             _ => bools.push(if s.contains_b(&e).expect("contains is public for this kind") { '1' } else { '0' }),
@@ -491,6 +560,13 @@ fn perms(n: usize) -> Vec<Vec<usize>> {
     out
 }
 fn has_contains(kind: u64) -> bool { kind == 1 || kind == 4 }
+fn pool_ids_k(r: &mut Rng, kind: u64, n: usize) -> Vec<u64> {
+    // composite elements with nested sets (pool registration with owners: id 7 / 22; committee update with members to remove: 3 / 7)
+    let mut ids = pool_ids(r, n);
+    if kind == 3 && r.chance(2, 3) { let c = *r.pick(&[7u64, 22, 37]); if !ids.contains(&c) { ids[0] = c; } }
+    if kind == 4 && r.chance(2, 3) { let c = *r.pick(&[3u64, 7, 19, 23]); if !ids.contains(&c) { ids[0] = c; } }
+    ids
+}
 fn pool_ids(r: &mut Rng, n: usize) -> Vec<u64> {
     // distinct ids; some share a base (differ in one field only)
     let mut ids: Vec<u64> = Vec::new();
@@ -501,7 +577,11 @@ fn gen_ops(r: &mut Rng, kind: u64, pool: &[Vec<u8>], n: usize) -> String {
     let mut s = format!("{}", n);
     for _ in 0..n {
         let e = r.pick(pool);
-        if has_contains(kind) && r.chance(1, 4) { s += &format!(" c{}", hx(e)); } else { s += &format!(" a{}", hx(e)); }
+        // the element handed to add / contains is decoded from another spelling of the same value (tagged vs plain inner set,
+        // indefinite inner array, wider heads) or from its canonical bytes (= API-built)
+        let w = if r.chance(2, 5) { same_elem_variant(r, kind, e) } else { e.clone() };
+        let tok = if &w == e { hx(e) } else { format!("{},{}", hx(&w), hx(e)) };
+        if has_contains(kind) && r.chance(1, 4) { s += &format!(" c{}", tok); } else { s += &format!(" a{}", tok); }
     }
     s
 }
@@ -515,7 +595,7 @@ fn gen_frame(r: &mut Rng, kind: u64, pool: &[Vec<u8>]) -> String {
         items.push(match r.below(45) {
             0 => "n".to_string(),
             1 => "b6161".to_string(),                                   // a text string where the element is expected: every element decoder rejects it
-            2..=6 => { let w = widen(e); match canon_of(kind, &w) { Some(c) => format!("e{},{}", hx(&w), hx(&c)), None => format!("b{}", hx(&w)) } }
+            2..=12 => { let w = variant(r, e); match canon_of(kind, &w) { Some(c) => format!("e{},{}", hx(&w), hx(&c)), None => format!("b{}", hx(&w)) } }
             _ => format!("e{},{}", hx(e), hx(e)),
         });
     }
@@ -538,7 +618,7 @@ fn gen_set(r: &mut Rng, out: &mut Out, thorough: bool) {
         // every order of n distinct elements, followed by a rotated second round (all repeats)
         let nmax = if thorough { 5 } else { 3 };
         for n in 1..=nmax {
-            let ids = pool_ids(r, n); let pool: Vec<Vec<u8>> = ids.iter().map(|i| element(kind, *i)).collect();
+            let ids = pool_ids_k(r, kind, n); let pool: Vec<Vec<u8>> = ids.iter().map(|i| element(kind, *i)).collect();
             for (pi, pm) in perms(n).iter().enumerate() {
                 let mut ops: Vec<String> = pm.iter().map(|i| format!("a{}", hx(&pool[*i]))).collect();
                 for k in 0..n { ops.push(format!("a{}", hx(&pool[pm[(k + pi) % n]]))); }
@@ -550,7 +630,7 @@ fn gen_set(r: &mut Rng, out: &mut Out, thorough: bool) {
         let reps = if thorough { 500 } else { 130 };
         for _ in 0..reps {
             let np = r.range(1, 6) as usize;
-            let ids = pool_ids(r, np); let pool: Vec<Vec<u8>> = ids.iter().map(|i| element(kind, *i)).collect();
+            let ids = pool_ids_k(r, kind, np); let pool: Vec<Vec<u8>> = ids.iter().map(|i| element(kind, *i)).collect();
             let (tag, init) = match r.below(10) {
                 0 | 1 => ("new", "new".to_string()),
                 2 | 3 | 4 | 5 => ("bytes", gen_frame(r, kind, &pool)),
